@@ -44,7 +44,9 @@ func (m wrapKM) Primitive(serializedKey []byte) (any, error) {
 	}
 	return buildPrimitive(m.kind, h)
 }
-func (m wrapKM) NewKey(serializedKeyFormat []byte) (proto.Message, error) { return nil, fmt.Errorf("not supported") }
+func (m wrapKM) NewKey(serializedKeyFormat []byte) (proto.Message, error) {
+	return nil, fmt.Errorf("not supported")
+}
 func (m wrapKM) NewKeyData(serializedKeyFormat []byte) (*tinkpb.KeyData, error) {
 	return nil, fmt.Errorf("not supported")
 }
@@ -77,7 +79,9 @@ func legacyKeyset(typeURL string, real *tinkpb.KeyTemplate, mt tinkpb.KeyData_Ke
 	return customKeyset(typeURL, must(proto.Marshal(inner)), mt, 0x0a0b0c0d)
 }
 
-func keysetOfKey(k key.Key) *tinkpb.Keyset { return insecurecleartextkeyset.KeysetMaterial(must(handleOf(k))) }
+func keysetOfKey(k key.Key) *tinkpb.Keyset {
+	return insecurecleartextkeyset.KeysetMaterial(must(handleOf(k)))
+}
 
 func init() {
 	const base = "type.googleapis.com/verif.c19.Legacy"
@@ -115,9 +119,9 @@ func init() {
 	}
 	// ---------------- signatures
 	sigKeysets := map[string]*tinkpb.Keyset{
-		"ECDSAP256":      materialOf(signature.ECDSAP256KeyTemplate()),
-		"ECDSAP384SHA512": materialOf(signature.ECDSAP384SHA512KeyTemplate()),
-		"ED25519":        materialOf(signature.ED25519KeyTemplate()),
+		"ECDSAP256":        materialOf(signature.ECDSAP256KeyTemplate()),
+		"ECDSAP384SHA512":  materialOf(signature.ECDSAP384SHA512KeyTemplate()),
+		"ED25519":          materialOf(signature.ED25519KeyTemplate()),
 		"RSASSAPKCS1-2048": keysetOfKey(keyFromParams(must(rsassapkcs1.NewParameters(2048, rsassapkcs1.SHA256, 65537, rsassapkcs1.VariantTink)))),
 		"RSASSAPSS-2048": keysetOfKey(keyFromParams(must(rsassapss.NewParameters(rsassapss.ParametersValues{ModulusSizeBits: 2048,
 			SigHashType: rsassapss.SHA256, MGF1HashType: rsassapss.SHA256, PublicExponent: 65537, SaltLengthBytes: 32}, rsassapss.VariantTink)))),
@@ -136,10 +140,10 @@ func init() {
 	factoryTargets("signature.NewVerifier/legacy-adapter", "verifier", 0, lsig, "signature.NewVerifier[legacy-adapter]")
 	// ---------------- hybrid
 	for n, t := range map[string]*tinkpb.KeyTemplate{
-		"HPKE-X25519-AES128GCM":   hybrid.DHKEM_X25519_HKDF_SHA256_HKDF_SHA256_AES_128_GCM_Key_Template(),
-		"HPKE-P256-AES256GCM":     hybrid.DHKEM_P256_HKDF_SHA256_HKDF_SHA256_AES_256_GCM_Key_Template(),
-		"HPKE-X25519-CHACHA20":    hybrid.DHKEM_X25519_HKDF_SHA256_HKDF_SHA256_CHACHA20_POLY1305_Key_Template(),
-		"ECIES-AES128GCM":         hybrid.ECIESHKDFAES128GCMKeyTemplate(),
+		"HPKE-X25519-AES128GCM":     hybrid.DHKEM_X25519_HKDF_SHA256_HKDF_SHA256_AES_128_GCM_Key_Template(),
+		"HPKE-P256-AES256GCM":       hybrid.DHKEM_P256_HKDF_SHA256_HKDF_SHA256_AES_256_GCM_Key_Template(),
+		"HPKE-X25519-CHACHA20":      hybrid.DHKEM_X25519_HKDF_SHA256_HKDF_SHA256_CHACHA20_POLY1305_Key_Template(),
+		"ECIES-AES128GCM":           hybrid.ECIESHKDFAES128GCMKeyTemplate(),
 		"ECIES-AES128CTRHMACSHA256": hybrid.ECIESHKDFAES128CTRHMACSHA256KeyTemplate(),
 	} {
 		factoryTargets("hybrid.NewHybridEncrypt/"+n, "hybridenc", 0, materialOf(t), "")
